@@ -379,7 +379,7 @@ var c11lits = []struct {
 	{"9223372036854775807", int64(9223372036854775807)}, {"-9223372036854775808", int64(-9223372036854775808)},
 	{"0x0", uint64(0)}, {"0xffffffffffffffff", uint64(0xffffffffffffffff)}, {"0x8000000000000000", uint64(0x8000000000000000)},
 	{"1.5", float64(1.5)}, {"-0.25", float64(-0.25)}, {"1.5e+7", float64(1.5e+7)}, {"1.5E-10", float64(1.5e-10)}, {"1.0e+100", float64(1e100)},
-	{"0.0", float64(0)}, {"(1.0+2.0i)", complex(1, 2)}, {"(-1.5e+2-0.5i)", complex(-150, -0.5)},
+	{"0.0", float64(0)}, {"(0.1+0.2i)", complex(0.1, 0.2)}, {"(16777217.0-1.1E+100i)", complex(16777217.0, -1.1e+100)}, {"0.1", float64(0.1)}, {"(1.0+2.0i)", complex(1, 2)}, {"(-1.5e+2-0.5i)", complex(-150, -0.5)},
 	{"'a'", 'a'}, {"'\"'", '"'}, {"'\\n'", '\n'}, {"'\\\\'", '\\'}, {"'\\''", '\''}, {"'\\x41'", 'A'}, {"'\\u00e9'", 'é'}, {"'\\U0001f600'", rune(0x1f600)},
 	{"\"\"", ""}, {"\"a'b\"", "a'b"}, {"\"a\\\"b\"", "a\"b"}, {"\"\\t\\\\\"", "\t\\"}, {"\"\\u00e9\\U0001f600\\x41\"", "é\U0001f600A"},
 }
